@@ -56,9 +56,16 @@ def _valid_order(order, rows, p, what):
 
 def _call(gen, case, seed, with_order):
     import sempler.generators as gens
-    p = case["p"]
+    from props.gcommon import npint
+    p = npint(case["p"], seed)             # p / k as Python or numpy numbers, arguments by keyword or by position
     w_min, w_max = case["w"]
+    style = seed % 5
     if gen == "avg":
+        k = case["k"]
+        if seed % 4 == 1:
+            k = np.float64(k)
+        elif seed % 4 == 2 and float(k).is_integer():
+            k = npint(int(k), seed // 4)
         kw = dict(w_min=w_min, w_max=w_max, random_state=seed)
         if with_order:
             kw["return_ordering"] = True
@@ -66,13 +73,21 @@ def _call(gen, case, seed, with_order):
             import contextlib
             import io
             with contextlib.redirect_stdout(io.StringIO()):
-                o = lib(gens.dag_avg_deg, p, case["k"], debug=True, **kw)
+                o = lib(gens.dag_avg_deg, p, k, debug=True, **kw)
             if o.ok or not (isinstance(o.exc, TypeError) and "debug" in str(o.exc)):
                 return o
-        return lib(gens.dag_avg_deg, p, case["k"], **kw)
+        if style == 3:
+            return lib(gens.dag_avg_deg, p, k, w_min, w_max, bool(with_order), seed)
+        if style == 4:
+            return lib(gens.dag_avg_deg, p=p, k=k, **kw)
+        return lib(gens.dag_avg_deg, p, k, **kw)
     kw = dict(w_min=w_min, w_max=w_max, random_state=seed)
     if with_order:
         kw["return_ordering"] = True
+    if style == 3:
+        return lib(gens.dag_full, p, w_min, w_max, bool(with_order), seed)
+    if style == 4:
+        return lib(gens.dag_full, p=p, **kw)
     return lib(gens.dag_full, p, **kw)
 
 
